@@ -137,6 +137,13 @@ func (hookC10) after(x *fleetExec, e engine.Event, nd *knode) {
 
 func (hookC10) query(x *fleetExec, e engine.Event, nd *knode) { c10Check(x, e, nd) }
 
+// quiesce: every node once more - statistics objects must not be shared between sketches.
+func (hookC10) quiesce(x *fleetExec) {
+	for _, id := range sortedNodeIDs(x) {
+		c10Check(x, engine.Event{Ev: "quiesce", N: id}, x.nodes[id])
+	}
+}
+
 // badadd N V W : a refused or weightless addition; the statistics must not move.
 func (hookC10) event(x *fleetExec, e engine.Event) bool {
 	if e.Ev != "badadd" {
@@ -196,6 +203,10 @@ func c10Check(x *fleetExec, e engine.Event, nd *knode) {
 	if !any {
 		if e1 == nil || e2 == nil {
 			x.fail("min-max", sig, "minimum/maximum of an empty sketch must be refused", "errors", fmt.Sprint(mn, mx))
+		}
+		x.st.Oracle("sum")
+		if sum != 0 {
+			x.fail("sum", sig, "an empty sketch reports a non-zero exact sum (the total of |value*weight| is 0)", "0", fmt.Sprint(sum))
 		}
 		return
 	}
